@@ -292,6 +292,7 @@ def run(check, repo, tier):
                 check.undecided(it[1], it[2])
             elif it[0] == "viol":
                 check.violation(it[1], it[2], it[3], it[4])
+                word_obl += 1
         if len(check.samples) < 8 and any(it[0] in ("ok", "viol") for it in r["items"]):
             check.sample({"command": r["command"], "context": r["ctx"], "abstract_paths": r["paths"],
                           "word_and_target_obligations": sum(1 for it in r["items"] if it[0] in ("ok", "viol"))})
